@@ -352,7 +352,7 @@ func (g *G) govMsg(v *view) script.Msg {
 	}
 	denom := "nund"
 	if !valid && g.chance(25) {
-		denom = g.pick("-", "atoken", "1bad")
+		denom = g.pick("-", "atoken", "1bad", "nund~", "~nund", "^nund") // also well-formed but for a blank or tab at an end
 	} else if g.chance(5) {
 		denom = "atoken" // a legal, if unusual, change
 	}
